@@ -15,6 +15,7 @@ Extensional equality of the remaining byte-level fast paths (next_is_document_*,
 their char-level defaults is a program-equivalence question and is not decided.
 """
 from .common import *
+import itertools
 from engine import fold, panics, tables, e1
 from engine.facts import is_local, op_const, const_value, op_place
 from . import C01
@@ -134,12 +135,64 @@ def run(tier):
         rep.check(not mism, "override-agreement", nm, "StrInput::%s disagrees with the provided body for: %s" % (nm, ", ".join(mism[:6])), site=ov.span,
                   detail={"cases": 257, "disagreements": len(mism)})
     rep.floor("character predicates used by the single-character tests", len(preds_used), 5)
+    # (iii+) skip_ws_to_eol: both bodies folded on every text of up to 3 (quick) / 5 (thorough) characters over {SP, TAB, #, a, LF, CR, e-acute}
+    # for both tab modes: same count, same result (tabs seen / whitespace seen / the error), same remaining input
+    SK = "saphyr_parser::input::SkipTabs"
+    ovw, dfw = F.fns.get(STR + "skip_ws_to_eol"), F.fns.get(INPUT + "::skip_ws_to_eol")
+    if ovw is not None and dfw is not None:
+        def _eqh(a):
+            return int(a[0][3] == a[1][3] and a[0][4] == a[1][4])
+
+        def _sfc(a):
+            sx = a[0][1]
+            return ("some", ("tuple", ord(sx[0]), ("str", sx[1:]))) if sx else ("none",)
+        def _res(r):
+            try:
+                res = r[2]
+                if res[2] == "Ok":
+                    return "(%d, tabs=%s ws=%s)" % (r[1], res[4][0][4][0], res[4][0][4][1])
+                return "(%d, error)" % r[1]
+            except Exception:
+                return str(r)[:80]
+        EQ = {"<%s as std::cmp::PartialEq<input::SkipTabs>>::eq" % SK: _eqh, "std::cmp::PartialEq::eq": _eqh, "std::cmp::PartialEq::ne": lambda a: 1 - _eqh(a)}
+        mism, ncase = [], 0
+        maxlen = 3 if tier == "quick" else 5
+        try:
+            for n_ in range(0, maxlen + 1):
+                for tt_ in itertools.product(" \t#a\n\r\u00e9", repeat=n_):
+                    text = "".join(tt_)
+                    for vi, vn in ((0, "Yes"), (1, "No")):
+                        ncase += 1
+                        model = ("struct", {"buffer": ("str", text)})
+                        h1 = dict(EQ)
+                        h1["saphyr_parser::input::str::split_first_char"] = _sfc
+                        r1 = fold.Folder(F, h1).call(ovw.key, [("ref", model), ("adt", SK, vn, vi, ())])
+                        rest1 = model[1]["buffer"]
+                        while isinstance(rest1, tuple) and rest1[0] == "ref":
+                            rest1 = rest1[1]
+                        rest1 = rest1[1]
+                        pos = {"i": 0}
+                        at = lambda k_, text=text, pos=pos: ord(text[pos["i"] + k_]) if pos["i"] + k_ < len(text) else 0
+
+                        def _skip(a, pos=pos):
+                            pos["i"] += 1
+                            return ("zst",)
+                        h2 = dict(EQ)
+                        h2.update({INPUT + "::look_ch": lambda a, at=at: at(0), INPUT + "::peek": lambda a, at=at: at(0), INPUT + "::skip": _skip})
+                        r2 = fold.Folder(F, h2).call(dfw.key, [("ref", ("struct", {})), ("adt", SK, vn, vi, ())])
+                        rest2 = text[pos["i"]:]
+                        if r1 != r2 or rest1 != rest2:
+                            mism.append("%r (tabs: %s): override %s / %r, provided body %s / %r" % (text, vn, _res(r1), rest1, _res(r2), rest2))
+            rep.check(not mism, "override-agreement", "skip_ws_to_eol", "StrInput::skip_ws_to_eol disagrees with the provided body (count, result or remaining input) for: %s"
+                      % ", ".join(mism[:5]), site=ovw.span, detail={"cases": ncase, "disagreements": len(mism)})
+            rep.extra.setdefault("multi_char_agreement", {})["skip_ws_to_eol"] = ncase
+        except (fold.Unsupported, fold.Diverged) as ex:
+            rep.incomplete("cannot fold skip_ws_to_eol: %s" % ex, ovw.span)
     # (iii'') the bulk operations: one round of the override's loop and of the provided body's loop, tabulated over the unit at the cursor
     from . import bulkops
     rep.floor("bulk operations compared", bulkops.check(rep, F), 3)
     # (iii') multi-character tests (document markers, "can a plain scalar go on here"): override vs provided body on every text of up to
     # four characters over the characters either body distinguishes (plus a letter and a two-byte character), by constant folding
-    import itertools
     LETTERS = [0x2D, 0x2E, 0x20, 0x09, 0x0A, 0x0D, 0x3A, 0x2C, 0x5B, 0x7D, 0x61, 0xE9]
     MULTI = {"next_is_document_indicator": (4, [()]), "next_is_document_start": (4, [()]), "next_is_document_end": (4, [()]),
              "next_can_be_plain_scalar": (2, [(0,), (1,)])}
